@@ -11,7 +11,7 @@ THEOREMS = [
     "C31_lf_write_total", "C31_crlf_write_total",
     "C31_lf_chunk_free", "C31_lf_chunk_free_refuted",
     "C31_crlf_chunk_free_refuted", "C31_crlf_chunk_free_partial", "C31_crlf_nocr",
-    "C31_checkout_eq_git_partial", "C31_checkout_mixed_refuted",
+    "C31_checkout_eq_git",
     "C31_add_eq_git_partial", "C31_add_index_crlf_refuted",
     "C31_roundtrip_partial", "C31_roundtrip_refuted", "C31_git_roundtrip",
     "C31_node_size",
@@ -443,8 +443,6 @@ class Flow(Suite):
         b = bytes.fromhex(c["data"])
         s = git_stats(b)
         text_crlf = lambda x: (not git_is_binary(git_stats(x))) and git_stats(x)["crlf"] > 0
-        if c["op"] == "checkout" and c["ac"] == 2 and text_crlf(b) and s["lonelf"] > 0:
-            return "mixed-checkout"
         if c["op"] == "add" and c.get("prior") is not None and text_crlf(bytes.fromhex(c["prior"])) and text_crlf(b):
             return "add-index-crlf"
         if c["op"] == "roundtrip" and text_crlf(b):
